@@ -452,10 +452,6 @@ class TDMProgram(Program):
         Args:
             shots (int): the number of times the circuit should be repeated
         """
-        _locked = self.locked
-        if self.locked:
-            self.locked = False
-
         if self.unrolled_circuit is not None:
             if self._unrolled_shots == shots:
                 self.circuit = self.unrolled_circuit
@@ -471,6 +467,9 @@ class TDMProgram(Program):
                 "'roll()' method) before unrolling."
             )
 
+        # a locked program is unlocked only while the unrolled circuit is being constructed
+        _locked = self.locked
+        self.locked = False
         self._unroll_program(shots, space=False)
         self.locked = _locked
 
@@ -484,14 +483,14 @@ class TDMProgram(Program):
         Args:
             shots (int): the number of times the circuit should be repeated
         """
-        _locked = self.locked
-        if self.locked:
-            self.locked = False
-
         if self.space_unrolled_circuit is not None and self._unrolled_shots == shots:
             self.circuit = self.space_unrolled_circuit
             return
         self.roll()
+
+        # a locked program is unlocked only while the unrolled circuit is being constructed
+        _locked = self.locked
+        self.locked = False
 
         # store the number of shots in the unrolled circuit
         self._unrolled_shots = shots
